@@ -547,6 +547,8 @@ def gen_random(ctx: Ctx):
         for _k in range(rng.randint(0, 8)):
             s = rand_time(rng, hi, g) - (1 if rng.random() < 0.2 else 0)
             d = Q(rng.randint(1, max(1, hi * g // 2)), g)
+            if rng.random() < 0.2:
+                d = rng.choice([Q(1, 16), Q(3, 32), Q(1, 8)])      # very short kernels, around 0.1 us
             if s <= 0:
                 s = Q(1, g)
             evs.insert(rng.randint(0, len(evs)), kev(s, d, name=rng.choice(KNAMES)))
